@@ -104,7 +104,9 @@ def build(kind, par):
         f[-1] = 1.0
         sfv = S("f", f)
         su = net.append(pym.LinSolve([sZ, sfv]))
-        sa = net.append(pym.ComplexNorm(su))
+        # |u| is not differentiable at the clamped dofs (u = 0 there): take the free dofs only
+        free = np.setdiff1d(np.arange(ndof), bc)
+        sa = net.append(pym.ComplexNorm(su[free]))
         so = net.append(pym.EinSum([sa], expression="i->"))
         return net, [sx], [so, su], tol, gen
     if kind == "eig-sparse":
@@ -218,16 +220,26 @@ def _seed(rng, outs, which):
         w = rng.standard_normal(np.shape(y))
         if np.iscomplexobj(y):
             w = w + 1j * rng.standard_normal(np.shape(y))
+        if np.ndim(y) == 2 and y.shape[1] > 1 and rng.random() < 0.5:
+            # seed a single column only (one mode / one load case), as finite_difference and per-mode objectives do
+            keep = int(rng.integers(y.shape[1]))
+            w[:, [j for j in range(y.shape[1]) if j != keep]] = 0
         out.append(w if np.ndim(y) else float(w))
     return out
 
 
-def _cycle(net, ins, outs, xs, seeds):
+def _cycle(net, ins, outs, xs, seeds, pre=()):
     net.reset()
     _setin(ins, xs)
     with warnings.catch_warnings():
         warnings.simplefilter("ignore")
         net.response()
+        for ws in pre:
+            for o, w in zip(outs, ws):
+                if w is not None:
+                    o.sensitivity = w.copy() if hasattr(w, "copy") else w
+            net.sensitivity()
+            net.reset()
         for o, w in zip(outs, seeds):
             if w is not None:
                 o.sensitivity = w.copy() if hasattr(w, "copy") else w
@@ -299,7 +311,15 @@ def run_case(case, ctx):
             if not any(which):
                 which[0] = True
             seeds = _seed(rng, outs, which)
-            y1, g1 = _cycle(net, ins, outs, xs, seeds)
+            # between the latest response and the compared seeding the user may have back-propagated other seeds
+            # (one seed per output/mode, each followed by reset() - the pattern of finite_difference and of MMA)
+            pre = []
+            for _ in range(int(rng.integers(0, 3))):
+                wh = [bool(b) for b in rng.integers(0, 2, len(outs))]
+                if not any(wh):
+                    wh[-1] = True
+                pre.append(_seed(rng, outs, wh))
+            y1, g1 = _cycle(net, ins, outs, xs, seeds, pre)
             net2, ins2, outs2, _, _ = build(kind, par)
             y2, g2 = _cycle(net2, ins2, outs2, xs, seeds)
         except RuntimeError as e:
